@@ -529,7 +529,8 @@ func (r *runner) makeBound(d resDesc) *bound {
 		}
 	case "shared":
 		mgr := resources.NewLocalSharedManager(toTLA(d.Init), resources.WithLocalSharedResourceTimeout(5*time.Millisecond))
-		b.res = mgr.MakeLocalShared()
+		mine := mgr.MakeLocalShared()
+		b.res = mine
 		other := mgr.MakeLocalShared()
 		otherHolds := false
 		b.env = func(ev []interface{}) {
@@ -545,9 +546,11 @@ func (r *runner) makeBound(d resDesc) *bound {
 			}
 		}
 		b.snap = func([]interface{}) interface{} {
+			// GetState takes the lock unless the handle already holds it: ask the holder (after a crash the
+			// archetype's own handle may still hold it)
 			h := other
 			if !otherHolds {
-				h = mgr.MakeLocalShared()
+				h = mine
 			}
 			st, err := h.GetState()
 			if err != nil {
@@ -832,15 +835,21 @@ func main() {
 			fmt.Fprintln(os.Stderr, "bad case:", err)
 			os.Exit(2)
 		}
-		var res result
-		func() {
+		resCh := make(chan result, 1)
+		go func() {
 			defer func() {
 				if p := recover(); p != nil {
-					res = result{ID: k.ID, Err: "harness panic: " + fmt.Sprint(p)}
+					resCh <- result{ID: k.ID, Err: "harness panic: " + fmt.Sprint(p)}
 				}
 			}()
-			res = runCase(k, db, root)
+			resCh <- runCase(k, db, root)
 		}()
+		var res result
+		select {
+		case res = <-resCh:
+		case <-time.After(40 * time.Second):
+			res = result{ID: k.ID, Err: "hang"}
+		}
 		enc.Encode(res)
 		out.Flush()
 	}
